@@ -1,248 +1,14 @@
-// C20, part 2: strong-typedef / enum result types (re-wrapping), make_uniform_enum(_advanced)
-// for enums of size 1..9, uniform_real and normal (bit-exact transparency).
+// C20, part 2: strong-typedef result types (re-wrapping) for uniform_int.
 #include "C20_common.hpp"
-
-#include <fcppt/random/distribution/parameters/make_uniform_enum.hpp>
-#include <fcppt/random/distribution/parameters/make_uniform_enum_advanced.hpp>
-#include <fcppt/random/distribution/parameters/normal.hpp>
-#include <fcppt/random/distribution/parameters/uniform_int_wrapper.hpp>
-#include <fcppt/random/distribution/parameters/uniform_real.hpp>
 
 namespace
 {
 using namespace c20;
 
-// ------------------------------------------------------------------ result types
 FCPPT_MAKE_STRONG_TYPEDEF(int, st_int);
 FCPPT_MAKE_STRONG_TYPEDEF(short, st_short);
 FCPPT_MAKE_STRONG_TYPEDEF(unsigned long, st_ulong);
 FCPPT_MAKE_STRONG_TYPEDEF(st_int, st_st_int); // nested: two type constructors to strip / re-apply
-FCPPT_MAKE_STRONG_TYPEDEF(double, st_double);
-
-// enums of size 1..9 with different underlying types; the size is stated here,
-// independently of fcppt_maximum
-enum class e1 : int { v0, fcppt_maximum = v0 };
-enum class e2 : unsigned { v0, v1, fcppt_maximum = v1 };
-enum class e3 : short { v0, v1, v2, fcppt_maximum = v2 };
-enum class e4 : long { v0, v1, v2, v3, fcppt_maximum = v3 };
-enum class e5 : unsigned long { v0, v1, v2, v3, v4, fcppt_maximum = v4 };
-enum class e6 { v0, v1, v2, v3, v4, v5, fcppt_maximum = v5 };
-enum class e7 : unsigned short { v0, v1, v2, v3, v4, v5, v6, fcppt_maximum = v6 };
-enum class e8 : long long { v0, v1, v2, v3, v4, v5, v6, v7, fcppt_maximum = v7 };
-enum class e9 : int { v0, v1, v2, v3, v4, v5, v6, v7, v8, fcppt_maximum = v8 };
-enum e3_unscoped : int { u0, u1, u2, fcppt_maximum = u2 }; // classic enum
-FCPPT_MAKE_STRONG_TYPEDEF(e9, st_e9); // strong typedef around an enum
-
-// ------------------------------------------------------------------ make_uniform_enum
-template <class E, class Enum> void enum_factory(char const *ename, int const size)
-{
-  using base = std::underlying_type_t<Enum>;
-  using P = fcppt::random::distribution::parameters::uniform_int<Enum>;
-  static_assert(std::is_same_v<decltype(fcppt::random::distribution::parameters::make_uniform_enum<Enum>()), P>);
-  static_assert(
-      std::is_same_v<decltype(fcppt::random::distribution::parameters::make_uniform_enum_advanced<
-                              fcppt::random::distribution::parameters::uniform_int_wrapper,
-                              Enum>()),
-                     P>);
-  base const lo = 0, hi = static_cast<base>(size - 1);
-  for (int adv = 0; adv < 2; ++adv)
-  {
-    std::string const nm = std::string(adv ? "make_uniform_enum_advanced<" : "make_uniform_enum<") + ename + "," + E::name + ">";
-    char const *const fn = intern(nm);
-    auto const make = [adv] {
-      return adv ? fcppt::random::distribution::parameters::make_uniform_enum_advanced<
-                       fcppt::random::distribution::parameters::uniform_int_wrapper,
-                       Enum>()
-                 : fcppt::random::distribution::parameters::make_uniform_enum<Enum>();
-    };
-    for (u64 const seed : seeds())
-    {
-      if (!announce(fn, size, seed))
-        continue;
-      vrt::nontrivial(size > 1);
-      vrt::maybe_sample();
-      P const p(make());
-      P const q{typename P::min(static_cast<Enum>(hi)), typename P::max(static_cast<Enum>(hi))}; // stored while drawing with p per call
-      lockstep<E>(nm, p, std::uniform_int_distribution<base>(lo, hi), seed, true, lo, hi, no_two_arg{}, q,
-                  std::uniform_int_distribution<base>(hi, hi), hi, hi);
-    }
-    if (vrt::out_of_time())
-      return;
-    {
-      // every enumerator (not only the two ends) must be reachable, nothing else
-      char const *const fn_all = intern(nm + ":all_enumerators");
-      if (announce(fn_all, size))
-      {
-        vrt::nontrivial(size > 1);
-        std::vector<bool> seen(static_cast<std::size_t>(size), false);
-        int nseen = 0;
-        for (u64 const seed : seeds())
-        {
-          typename E::fc g(fc_seed<E>(seed));
-          fcppt::random::distribution::basic<P> d(make());
-          for (int i = 0; i < DRAWS && nseen < size; ++i)
-          {
-            i128 const v = static_cast<i128>(static_cast<base>(d(g)));
-            if (v < 0 || v >= size)
-            {
-              vrt::fail(nm + ":out_of_bounds", vrt::fmt("enumerator value %s for an enum of size %d", str128(v).c_str(), size));
-              nseen = size;
-              break;
-            }
-            if (!seen[static_cast<std::size_t>(v)])
-            {
-              seen[static_cast<std::size_t>(v)] = true;
-              ++nseen;
-            }
-          }
-          if (nseen >= size)
-            break;
-        }
-        for (int k = 0; k < size; ++k)
-          VRT_CHECK(seen[static_cast<std::size_t>(k)], nm + ":enumerator_never_reached", "enumerator %d of %d never drawn", k, size);
-      }
-    }
-  }
-}
-
-template <class E> void enum_factories()
-{
-  enum_factory<E, e1>("e1:int", 1);
-  enum_factory<E, e2>("e2:unsigned", 2);
-  enum_factory<E, e3>("e3:short", 3);
-  enum_factory<E, e4>("e4:long", 4);
-  enum_factory<E, e5>("e5:unsigned long", 5);
-  enum_factory<E, e6>("e6", 6);
-  enum_factory<E, e7>("e7:unsigned short", 7);
-  enum_factory<E, e8>("e8:long long", 8);
-  enum_factory<E, e9>("e9:int", 9);
-  enum_factory<E, e3_unscoped>("e3_unscoped", 3);
-}
-
-// sub-intervals of an enum: all [a,b] with 0 <= a <= b <= size-1
-template <class B> std::vector<std::pair<B, B>> sub_intervals(int const size)
-{
-  std::vector<std::pair<B, B>> r;
-  for (int a = 0; a < size; ++a)
-    for (int b = a; b < size; ++b)
-      r.emplace_back(static_cast<B>(a), static_cast<B>(b));
-  return r;
-}
-
-// ------------------------------------------------------------------ real-valued distributions
-struct real_pair
-{
-  double x, y;
-};
-
-std::vector<real_pair> uniform_real_params()
-{
-  std::vector<real_pair> r;
-  double const grid[] = {-8., -1., -0.5, 0., 0.25, 1., 3., 8.};
-  for (double a : grid)
-    for (double b : grid)
-      if (a < b)
-        r.push_back({a, b});
-  r.push_back({0., 1e30});
-  r.push_back({-1e-30, 1e-30});
-  r.push_back({1., 1.0000001});
-  r.push_back({-1e6, 1e6});
-  return r;
-}
-
-std::vector<real_pair> normal_params()
-{
-  std::vector<real_pair> r;
-  for (double m : {-2., 0., 0.5, 1e6})
-    for (double s : {1e-3, 0.25, 1., 5.})
-      r.push_back({m, s});
-  return r;
-}
-
-template <class E, class R> void uniform_real_family(char const *rname)
-{
-  using base = typename rt<R>::base;
-  using P = fcppt::random::distribution::parameters::uniform_real<R>;
-  static_assert(std::is_same_v<typename P::distribution, std::uniform_real_distribution<base>>);
-  std::string const nm = std::string("uniform_real<") + rname + "," + E::name + ">";
-  char const *const fn = intern(nm);
-  std::vector<real_pair> const params = uniform_real_params();
-  for (std::size_t k = 0; k < params.size(); ++k)
-  {
-    real_pair const &pr = params[k];
-    if (vrt::out_of_time())
-      return;
-    base const a = static_cast<base>(pr.x), b = static_cast<base>(pr.y);
-    if (!(a < b))
-      continue; // not distinct in float
-    // the other parameter set (stored while drawing with per-call parameters)
-    std::size_t kq = (k + 5) % params.size();
-    while (!(static_cast<base>(params[kq].x) < static_cast<base>(params[kq].y)))
-      kq = (kq + 1) % params.size();
-    base const qa = static_cast<base>(params[kq].x), qb = static_cast<base>(params[kq].y);
-    for (u64 const seed : seeds())
-    {
-      for (int reset_at : {-1, 3})
-      {
-        if (!vrt::begin_text(fn, vrt::fmt("%s(min=%.9g, sup=%.9g, seed=%s%s)", nm.c_str(), static_cast<double>(a),
-                                          static_cast<double>(b), str128(static_cast<i128>(seed)).c_str(),
-                                          reset_at >= 0 ? ", reset() after 3 draws" : "")))
-          continue;
-        vrt::nontrivial(true);
-        vrt::maybe_sample();
-        P const p{typename P::min(rt<R>::wrap(a)), typename P::sup(rt<R>::wrap(b))};
-        P const q{typename P::min(rt<R>::wrap(qa)), typename P::sup(rt<R>::wrap(qb))};
-        lockstep<E>(
-            nm, p, std::uniform_real_distribution<base>(a, b), seed, false, a, b,
-            [&] {
-              return fcppt::random::distribution::basic<P>(typename P::min(rt<R>::wrap(a)), typename P::sup(rt<R>::wrap(b)));
-            },
-            q, std::uniform_real_distribution<base>(qa, qb), qa, qb, reset_at);
-      }
-    }
-  }
-}
-
-template <class E, class R> void normal_family(char const *rname)
-{
-  using base = typename rt<R>::base;
-  using P = fcppt::random::distribution::parameters::normal<R>;
-  static_assert(std::is_same_v<typename P::distribution, std::normal_distribution<base>>);
-  std::string const nm = std::string("normal<") + rname + "," + E::name + ">";
-  char const *const fn = intern(nm);
-  std::vector<real_pair> const params = normal_params();
-  for (std::size_t k = 0; k < params.size(); ++k)
-  {
-    real_pair const &pr = params[k];
-    if (vrt::out_of_time())
-      return;
-    base const m = static_cast<base>(pr.x), s = static_cast<base>(pr.y);
-    real_pair const &prq = params[(k + 5) % params.size()]; // stored while drawing with per-call parameters
-    base const qm = static_cast<base>(prq.x), qs = static_cast<base>(prq.y);
-    for (u64 const seed : seeds())
-    {
-      // normal_distribution keeps a second value between calls: reset() after an odd
-      // number of draws changes the sequence, so forwarding of reset() is visible
-      for (int reset_at : {-1, 1, 3})
-      {
-        if (!vrt::begin_text(fn, vrt::fmt("%s(mean=%.9g, stddev=%.9g, seed=%s%s)", nm.c_str(), static_cast<double>(m),
-                                          static_cast<double>(s), str128(static_cast<i128>(seed)).c_str(),
-                                          reset_at >= 0 ? vrt::fmt(", reset() after %d draws", reset_at).c_str() : "")))
-          continue;
-        vrt::nontrivial(true);
-        vrt::maybe_sample();
-        P const p{typename P::mean(rt<R>::wrap(m)), typename P::stddev(rt<R>::wrap(s))};
-        P const q{typename P::mean(rt<R>::wrap(qm)), typename P::stddev(rt<R>::wrap(qs))};
-        lockstep<E>(
-            nm, p, std::normal_distribution<base>(m, s), seed, false, m, s,
-            [&] {
-              return fcppt::random::distribution::basic<P>(typename P::mean(rt<R>::wrap(m)), typename P::stddev(rt<R>::wrap(s)));
-            },
-            q, std::normal_distribution<base>(qm, qs), qm, qs, reset_at);
-      }
-    }
-  }
-}
 
 template <class R> void wrapped_shards(char const *rname, char const *shardname)
 {
@@ -265,38 +31,4 @@ void c20::register_wrapped()
   wrapped_shards<st_short>("strong_typedef<short>", "st_short");
   wrapped_shards<st_ulong>("strong_typedef<unsigned long>", "st_ulong");
   wrapped_shards<st_st_int>("strong_typedef<strong_typedef<int>>", "st_st_int");
-  vrt::shard("uniform_int/enum_subintervals/minstd_rand", [] {
-    uniform_int_family<eng_minstd, e9>("e9:int", sub_intervals<int>(9), 0, 1);
-    uniform_int_family<eng_minstd, e5>("e5:unsigned long", sub_intervals<unsigned long>(5), 0, 1);
-    uniform_int_family<eng_minstd, e3>("e3:short", sub_intervals<short>(3), 0, 1);
-    uniform_int_family<eng_minstd, st_e9>("strong_typedef<e9:int>", sub_intervals<int>(9), 0, 1);
-  });
-  vrt::shard("uniform_int/enum_subintervals/mt19937", [] {
-    uniform_int_family<eng_mt, e9>("e9:int", sub_intervals<int>(9), 0, 1);
-    uniform_int_family<eng_mt, e5>("e5:unsigned long", sub_intervals<unsigned long>(5), 0, 1);
-    uniform_int_family<eng_mt, e3>("e3:short", sub_intervals<short>(3), 0, 1);
-    uniform_int_family<eng_mt, st_e9>("strong_typedef<e9:int>", sub_intervals<int>(9), 0, 1);
-  });
-  vrt::shard("make_uniform_enum/minstd_rand", [] { enum_factories<eng_minstd>(); });
-  vrt::shard("make_uniform_enum/mt19937", [] { enum_factories<eng_mt>(); });
-  vrt::shard("uniform_real/minstd_rand", [] {
-    uniform_real_family<eng_minstd, double>("double");
-    uniform_real_family<eng_minstd, float>("float");
-    uniform_real_family<eng_minstd, st_double>("strong_typedef<double>");
-  });
-  vrt::shard("uniform_real/mt19937", [] {
-    uniform_real_family<eng_mt, double>("double");
-    uniform_real_family<eng_mt, float>("float");
-    uniform_real_family<eng_mt, st_double>("strong_typedef<double>");
-  });
-  vrt::shard("normal/minstd_rand", [] {
-    normal_family<eng_minstd, double>("double");
-    normal_family<eng_minstd, float>("float");
-    normal_family<eng_minstd, st_double>("strong_typedef<double>");
-  });
-  vrt::shard("normal/mt19937", [] {
-    normal_family<eng_mt, double>("double");
-    normal_family<eng_mt, float>("float");
-    normal_family<eng_mt, st_double>("strong_typedef<double>");
-  });
 }
